@@ -1,5 +1,7 @@
 import RactorModel.Lemmas.GenAdmission
 import RactorModel.Lemmas.TreeKids
+import RactorModel.Lemmas.TreeConcExit
+import RactorModel.Lemmas.TreeWindow
 import RactorModel.Extracted
 
 /-!
@@ -183,6 +185,39 @@ theorem quiescent_exit_takes_subtree (ops : List MOp) (a : Nat)
   obtain ⟨_, hD, hN, _, _⟩ := exitCore_spec h han hag
   exact ⟨hD, hN⟩
 
+/-- Round 4 follow-up (seeded change C05-10): the same for the lifecycle guard's cleanup of an actor whose START
+fails (`pre_start` returns Err / panics, or the start future is dropped) — `abort` is `cleanup` run from wherever
+the task was: whatever the actor had linked beneath itself by then (children it `spawn_linked` under itself inside
+`pre_start`, and everything beneath them) reaches Stopped with it. -/
+theorem quiescent_failed_start_takes_subtree (ops : List MOp) (a : Nat)
+    (hal : (mrun true {} ops).alive a = true) :
+    let m := mrun true {} ops
+    let m' := (mstep true m (.abort a)).1
+    (∀ z, Desc m.t a z → m'.t.status z = if z ≠ a ∧ m.t.status z = .stopping then .stopping else .stopped) ∧
+    (∀ z, ¬ Desc m.t a z → m'.t.status z = m.t.status z) := by
+  intro m m'
+  have h := mrun_MI ops
+  obtain ⟨han, hag⟩ := alive_iff.mp hal
+  have e : m'.t = (exitCore true m a).t := by
+    show (mstep true m (.abort a)).1.t = _
+    simp only [mstep, hal, ↓reduceIte, m]
+    rfl
+  rw [e]
+  obtain ⟨_, hD, hN, _, _⟩ := exitCore_spec h han hag
+  exact ⟨hD, hN⟩
+
+/-- Round 4 follow-up (seeded change C04-11): `unlink(child, x)` with `x` not the child's CURRENT supervisor
+(a stale unlink, e.g. with the former supervisor after a hand-over) is a no-op on every component of the
+tree — atomic layer, macro layer and concurrent layer alike. -/
+theorem stale_unlink_is_noop (s : State) (c x : Nat) (h : s.sup c ≠ some x) :
+    unlink s c x = s ∧
+    (∀ (m : MState), m.t = s → (mstep true m (.unlink c x)).1.t = m.t) ∧
+    (∀ (g : CState), g.t = s → (cstep g (.unlink c x)).t = g.t ∧ (cstep g (.unlink c x)).pc = g.pc) := by
+  have e : unlink s c x = s := by simp [Tree.unlink, h]
+  refine ⟨e, ?_, ?_⟩
+  · intro m hm; subst hm; show unlink m.t c x = m.t; exact e
+  · intro g hg; subst hg; exact ⟨e, rfl⟩
+
 /-- Handing a child over, in every reachable state (in particular while its supervisor has published
 `Stopping` and sits in `post_stop` with its child set still open — `setStatus a .stopping` is one of the
 operations): after an accepted `link c b` the child is in exactly one child set, `b`'s. -/
@@ -278,6 +313,209 @@ theorem wrappers_keep_invariant (ops : List MOp) (k : KOp) : ok (kstep true (mru
   have h := mrun_MI ops
   cases k <;> exact (mrun_MI' h _).inv.ok
 
+/-! ### Round 4: any number of concurrently exiting actors, linkers, unlinkers (`Model/TreeConc.lean`)
+
+A schedule is a `List COp`: `spawn`, `link`, `unlink`, `setStatus` of arbitrary outside threads, `begin a kill`
+(an actor's task leaves its message loop) and `xstep a` (the next statement of `a`'s exit, in the order
+the code has them; `terminate`'s worklist iteration is split into the kill test and `take_children`).
+Any number of actors exit at once, at any depth. -/
+
+/-- for ALL schedules: the structural invariant (two-sided link consistency, bounded ids, duplicate-free
+sets, a stopped actor has no links) holds between any two tree-lock regions, together with what every
+exit program counter promises (`MInv`) -/
+theorem conc_invariant (ops : List COp) : CInv (crun cinit ops) := CInv.init.run ops
+
+/-- (1) two-sided link consistency between lock regions, for all schedules -/
+theorem conc_links_consistent (ops : List COp) (c p : Nat) :
+    (crun cinit ops).t.sup c = some p ↔ child (crun cinit ops).t p c :=
+  (conc_invariant ops).inv.links c p
+
+/-- (3, strengthened) a Stopped actor's child set is CLOSED (not merely empty), it has no supervisor, and
+only the last statement of its own `cleanup` made it Stopped -/
+theorem conc_stopped_closed (ops : List COp) (a : Nat) (h : (crun cinit ops).t.status a = .stopped) :
+    (crun cinit ops).pc a = .done ∧ (crun cinit ops).t.kids a = none ∧ (crun cinit ops).t.sup a = none := by
+  have hd := (conc_invariant ops).stopped a h
+  have hm := (conc_invariant ops).mach a
+  rw [hd] at hm
+  exact ⟨hd, hm.2.1, hm.2.2⟩
+
+/-- (6) in every reachable state, in any step of any thread: an actor that is draining, stopping or stopped
+gains no child; it gains no supervisor either — with the one exception the code makes since the fix of F9:
+the link `start` makes for the actor it starts (`link_starting`) accepts a child that a `drain()` during
+`pre_start` lifted to `Draining`.  A `Stopping` / `Stopped` actor gains no supervisor under any step. -/
+theorem conc_no_gain (ops : List COp) (op : COp) (z : Nat)
+    (hz : Status.draining.toNat ≤ ((crun cinit ops).t.status z).toNat) :
+    (∀ x, child (cstep (crun cinit ops) op).t z x → child (crun cinit ops).t z x) ∧
+    ((Status.stopping.toNat ≤ ((crun cinit ops).t.status z).toNat ∨ ∀ p, op ≠ .linkStart z p) →
+      ∀ q, (cstep (crun cinit ops) op).t.sup z = some q → (crun cinit ops).t.sup z = some q) :=
+  Tree.conc_no_gain (conc_invariant ops) op z hz
+
+/-- the link `start` makes (`SupervisionTree::link_starting`): (a) refused, changing nothing, iff the child
+is at least `Stopping`, the supervisor at least `Draining`, or the supervisor's set closed; (b) accepted only
+below those limits, into an open set, and the child is then linked; (c) it keeps the structural invariant;
+(d) for a child below `Draining` it IS the public `link`. -/
+theorem start_link_gate (s : State) (c p : Nat) :
+    ((¬ gateB Status.stopping.toNat s c p ∨ s.kids p = none) → linkStart s c p = (s, false)) ∧
+    ((linkStart s c p).2 = true →
+      gateB Status.stopping.toNat s c p ∧ (∃ ks, s.kids p = some ks) ∧ (linkStart s c p).1.sup c = some p) ∧
+    (Inv s → Inv (linkStart s c p).1) ∧
+    ((s.status c).toNat < Status.draining.toNat → linkStart s c p = link s c p) :=
+  ⟨linkB_refused, linkB_true, fun h => h.linkStart c p, linkStart_eq_link⟩
+
+/-- the supervisor side of the start link is the same gate: a draining / stopping / stopped actor gains no
+child through it; and a child that is `Stopping` / `Stopped` gains no supervisor through it -/
+theorem start_link_no_gain {s : State} (h : Inv s) (c p z : Nat)
+    (hz : Status.draining.toNat ≤ (s.status z).toNat) :
+    (∀ x, child (linkStart s c p).1 z x → child s z x) ∧
+    ((Status.stopping.toNat ≤ (s.status z).toNat ∨ z ≠ c) →
+      ∀ q, (linkStart s c p).1.sup z = some q → s.sup z = some q) :=
+  linkB_no_gain h c p z hz
+
+/-- being on the way out is stable: whatever anybody does -/
+theorem exiting_is_stable (ops more : List COp) (x : Nat) (h : Exiting (crun cinit ops) x) :
+    Exiting (crun (crun cinit ops) more) x :=
+  exiting_run (conc_invariant ops) more x h
+
+/-- (1)+(2), the general form.  `g0` any reachable state in which `a` is on its way out (its task has left
+the message loop, or it was sent the kill signal, or it has published `Stopping`), `z` linked beneath `a` at
+that instant, at any depth.  For EVERY continuation of the schedule — other actors of the subtree exiting
+concurrently, linkers, unlinkers, spawns anywhere — that comes to rest: `z` is Stopped (status, not a
+flag), closed and detached, unless an outside thread's accepted `unlink` / hand-over `link` took `z`, or
+an actor between `a` and `z`, out of its supervisor's child set during the run. -/
+theorem conc_exit_takes_subtree (ops0 ops : List COp) (a z : Nat)
+    (ha : Exiting (crun cinit ops0) a) (hd : Desc (crun cinit ops0).t a z)
+    (hr : Rest (crun (crun cinit ops0) ops)) :
+    ((crun (crun cinit ops0) ops).t.status z = .stopped ∧ (crun (crun cinit ops0) ops).t.kids z = none ∧
+      (crun (crun cinit ops0) ops).t.sup z = none) ∨
+    ∃ y, DescP (crun cinit ops0).t a y ∧ Desc (crun cinit ops0).t y z ∧ escRun (crun cinit ops0) ops y = true := by
+  rcases rest_subtree (conc_invariant ops0) ops ha hd hr with e | e
+  · exact .inl (rest_exiting ((conc_invariant ops0).run ops) hr e).2
+  · exact .inr e
+
+/-- … in particular, if nobody unlinks or hands over an actor of the subtree during the run, the whole
+subtree is Stopped at rest -/
+theorem conc_exit_takes_whole_subtree (ops0 ops : List COp) (a : Nat)
+    (ha : Exiting (crun cinit ops0) a) (hr : Rest (crun (crun cinit ops0) ops))
+    (hne : ∀ y, DescP (crun cinit ops0).t a y → escRun (crun cinit ops0) ops y = false) (z : Nat)
+    (hd : Desc (crun cinit ops0).t a z) :
+    (crun (crun cinit ops0) ops).t.status z = .stopped := by
+  rcases conc_exit_takes_subtree ops0 ops a z ha hd hr with e | ⟨y, h1, _, h3⟩
+  · exact e.1
+  · rw [hne y h1] at h3; cases h3
+
+/-- a link — the public `link` (`start = false`) or the one `spawn_linked`'s `start` makes (`start = true`)
+— that arrives while its target is on the way out: whatever the interleaving, if it is accepted the new
+child is Stopped at rest (clauses 4/5 for any number of linkers, spawns and exits: the accepted link makes
+`c` a child of `p` in the state after it, and the edge lemma applies from there) -/
+theorem conc_link_under_exiting (ops0 ops : List COp) (c p : Nat) (start : Bool)
+    (hp : Exiting (crun cinit ops0) p)
+    (hacc : (if start then linkStart (crun cinit ops0).t c p else link (crun cinit ops0).t c p).2 = true)
+    (hr : Rest (crun (crun cinit ops0) ((if start then COp.linkStart c p else .link c p) :: ops)))
+    (hne : escRun (cstep (crun cinit ops0) (if start then .linkStart c p else .link c p)) ops c = false) :
+    (crun (crun cinit ops0) ((if start then COp.linkStart c p else .link c p) :: ops)).t.status c = .stopped := by
+  have h1 : CInv (cstep (crun cinit ops0) (if start then .linkStart c p else .link c p)) :=
+    (conc_invariant ops0).step _
+  have hsup : (cstep (crun cinit ops0) (if start then .linkStart c p else .link c p)).t.sup c = some p := by
+    cases start
+    · exact (link_true hacc).2.2
+    · exact (linkB_true hacc).2.2
+  have hch := (h1.inv.links c p).mp hsup
+  have hp' := exiting_step (conc_invariant ops0) (if start then .linkStart c p else .link c p) p hp
+  rcases edge_run h1 ops hch with r | r | r
+  · exfalso
+    have := (rest_exiting (h1.run ops) hr (exiting_run h1 ops p hp')).2.2.1
+    obtain ⟨ks, hk, _⟩ := r
+    rw [this] at hk; cases hk
+  · exact (rest_exiting (h1.run ops) hr r).2.1
+  · rw [hne] at r; cases r
+
+/-- a descendant that has already published `Stopping` (it sits in `post_stop`) is detached but NOT sent
+the kill signal — `terminate` tests `status < Stopping` — and it counts as on its way out: "takes its
+subtree" for such an actor means that its own `cleanup` is what stops it (the `Rest` hypothesis). -/
+theorem stopping_descendant_not_killed_but_exiting (g : CState) (y : Nat)
+    (h : Status.stopping.toNat ≤ (g.t.status y).toNat) :
+    applyAct g.t (.kill y) = g.t ∧ Exiting g y := by
+  refine ⟨?_, .inr (.inr (.inl h))⟩
+  have : killCond true (g.t.status y) = false := by
+    cases hs : g.t.status y <;> rw [hs] at h <;> simp [killCond, Status.toNat] at h ⊢
+  simp [Tree.applyAct, this]
+
+/-- what the E-THR-MX clause `C05.subtree-dies` judges: an actor whose supervisor link is cut by somebody's
+`take_children` (the region `xstep a` at `take y`) is from then on on its way out — it sits on `a`'s
+worklist — so at rest it is Stopped (`exiting_is_stable`, `rest_exiting`) -/
+theorem cut_by_take_is_exiting (ops : List COp) (a y c : Nat) (cl : Bool) (pend : List Nat)
+    (hpc : (crun cinit ops).pc a = .term cl pend (some y)) (hc : child (crun cinit ops).t y c) :
+    (cstep (crun cinit ops) (.xstep a)).t.kids y = none ∧ Exiting (cstep (crun cinit ops) (.xstep a)) c := by
+  have hk : (cstep (crun cinit ops) (.xstep a)).t.kids y = none := by
+    show (applyAct (crun cinit ops).t (cact (crun cinit ops) (.xstep a))).kids y = none
+    simp only [cact, hpc, xact_take, Tree.applyAct]
+    exact takeChildren_closes _ _
+  refine ⟨hk, ?_⟩
+  rcases edge_step (conc_invariant ops) (.xstep a) hc with e | e | e
+  · obtain ⟨ks, hks, _⟩ := e; rw [hk] at hks; cases hks
+  · exact e
+  · simp [escStep] at e
+
+/-- the worklist iteration of the atomic model is the kill test followed by `take_children` — the two
+steps of the concurrent model, with a schedule point (`tree.take`) between them -/
+theorem visit_is_kill_then_take (t : State) (y : Nat) :
+    visit true t y = takeChildren (applyAct t (.kill y)) y := Tree.visit_eq_kill_take t y
+
+/-- Round 4 follow-up (seeded change C05-10), in the concurrent model: whatever the status of the actor when its cleanup begins (`Starting`
+included): `begin p false` is the guard's `cleanup`; for every schedule that comes to rest the subtree the actor
+had built is Stopped (unless an outside thread unlinked / handed over part of it meanwhile). -/
+theorem failed_start_takes_built_subtree (ops0 ops : List COp) (p z : Nat)
+    (hp : p < (crun cinit ops0).t.n) (hidle : (crun cinit ops0).pc p = .idle)
+    (hd : Desc (crun cinit ops0).t p z)
+    (hr : Rest (crun (crun cinit ops0) (.begin p false :: ops)))
+    (hne : ∀ y, DescP (crun cinit ops0).t p y →
+      escRun (cstep (crun cinit ops0) (.begin p false)) ops y = false) :
+    (crun (crun cinit ops0) (.begin p false :: ops)).t.status z = .stopped := by
+  have h1 : CInv (cstep (crun cinit ops0) (.begin p false)) := (conc_invariant ops0).step _
+  have ht : (cstep (crun cinit ops0) (.begin p false)).t = (crun cinit ops0).t := rfl
+  have hex : Exiting (cstep (crun cinit ops0) (.begin p false)) p := by
+    left
+    show cpc (crun cinit ops0) (.begin p false) p ≠ .idle
+    simp [cpc, hp, hidle, upd_apply]
+  rcases rest_subtree h1 ops hex (by rw [ht]; exact hd) hr with e | ⟨y, h2, _, h4⟩
+  · exact (rest_exiting (h1.run ops) hr e).2.1
+  · rw [ht] at h2; rw [hne y h2] at h4; cases h4
+
+/-! #### what a lock-free reader can see (`get_children`, `try_get_supervisor` do not take the tree lock) -/
+
+/-- an accepted hand-over `link c p` is two halves; between them only `TREE_MUTATION_LOCK` is held -/
+theorem handover_is_two_halves {s : State} {c p q : Nat} {ks : List Nat}
+    (hg : gate s c p) (hk : s.kids p = some ks) (hs : s.sup c = some q) (hqp : q ≠ p) :
+    link s c p = (linkB (linkA s c p) c q, true) := link_handover_split hg hk hs hqp
+
+/-- between the halves a reader sees a state that is consistent EXCEPT that `c` is listed by both the new
+supervisor `p` and the previous one `q`, its supervisor field naming `p`: "a child is in exactly its
+supervisor's set" fails for a lock-free reader exactly for the child of an in-flight hand-over, and only
+as `c ∈ get_children(q)` with `try_get_supervisor(c) = p`. -/
+theorem reader_sees_during_link (ops : List COp) {c p q : Nat} {ks : List Nat}
+    (hk : (crun cinit ops).t.kids p = some ks) (hs : (crun cinit ops).t.sup c = some q) (hqp : q ≠ p) :
+    let m := linkA (crun cinit ops).t c p
+    (∀ x y, m.sup x = some y → child m y x) ∧
+    (∀ x y, child m y x → m.sup x = some y ∨ (x = c ∧ y = q)) ∧
+    child m q c ∧ child m p c ∧ m.sup c = some p :=
+  reader_link_window (conc_invariant ops).inv hk hs hqp
+
+/-- inside `take_children p` (set taken, supervisor fields of `cleared` reset, the others not yet): every
+listed child names its supervisor; a supervisor field that names an actor not listing the child is the
+field of a not-yet-cleared child of `p` — and `p.children` is locked for the whole region, so a reader
+cannot see `p`'s set at that instant at all. -/
+theorem reader_sees_during_take (ops : List COp) {p : Nat} {ks : List Nat}
+    (hk : (crun cinit ops).t.kids p = some ks) (cleared : List Nat) :
+    let m := takeMid (crun cinit ops).t p cleared
+    (∀ x y, child m y x → m.sup x = some y) ∧
+    (∀ x y, m.sup x = some y → child m y x ∨ (y = p ∧ x ∈ ks ∧ x ∉ cleared)) ∧
+    m.kids p = none :=
+  reader_take_window (conc_invariant ops).inv hk cleared
+
+/-- … and with every field cleared it is the region's result -/
+theorem take_window_end {s : State} {p : Nat} {ks : List Nat} (hk : s.kids p = some ks) :
+    takeMid s p ks = (takeChildren s p).1 := takeMid_all hk
+
 /-! ### ties to the source text (E-SRC) -/
 
 /-- the kill condition in `ActorCell::terminate` is the one the model uses for the code under test -/
@@ -291,6 +529,33 @@ theorem cleanup_order_matches_source :
 /-- `ActorStatus` discriminants -/
 theorem status_discriminants_match_source :
     Extracted.statusDiscriminants = Status.all.map (fun st => (st.name, st.toNat)) := by decide
+
+/-- round 4: `terminate`'s loop body is: pop, kill test, `take_children`, push — the two steps of the
+concurrent model in this order -/
+theorem terminate_loop_matches_source :
+    Extracted.terminateLoopOrder = ["pending.pop", "get_status()", ".kill()", "take_children", "pending.extend"] := by
+  decide
+
+/-- round 4: the child limits of the two link forms are the ones of `Tree.link` / `Tree.linkStart`, the
+supervisor limit is `Draining` for both, and `start` (both runtimes) uses the start link -/
+theorem link_limits_match_source :
+    Extracted.linkChildLimits =
+      [("link", (Status.all.find? (·.toNat == Status.draining.toNat)).map (·.name) |>.getD ""),
+       ("link_starting", (Status.all.find? (·.toNat == Status.stopping.toNat)).map (·.name) |>.getD "")] ∧
+    Extracted.linkSupervisorLimit = Status.draining.name ∧
+    Extracted.startLinkCalls = [("actor.rs", "try_link_starting"), ("inner.rs", "try_link_starting")] := by decide
+
+/-- round 4: which functions are tree-lock regions and which readers are lock-free; the window of a hand-over
+(`linkA` … `linkB`) and of `take_children` (`takeMid`) are where the model puts them -/
+theorem lock_regions_match_source :
+    Extracted.treeLockUsers = [("link_below", true), ("unlink", true), ("take_children", true),
+      ("get_children", false), ("for_each_child", false), ("try_get_supervisor", false)] ∧
+    Extracted.linkReleasesBeforeOldParent = true ∧ Extracted.takeHoldsParentSet = true := by decide
+
+/-- follow-up: `unlink` returns early unless `supervisor` is the child's current supervisor (`Tree.unlink`'s `if`),
+and `cleanup` calls `terminate()` unconditionally (the exit machine has no "was running" flag) -/
+theorem unlink_and_cleanup_guards_match_source :
+    Extracted.unlinkOnlyCurrentSupervisor = true ∧ Extracted.cleanupTerminatesUnconditionally = true := by decide
 
 /-! ### Non-vacuity -/
 
@@ -357,6 +622,46 @@ theorem generated_terminate_kill_condition_eq_model (enq : Except MessagingErr U
   rcases actor with ⟨s⟩
   cases s <;> simp [ActorCell.terminate_kills, Tree.killCond, Tree.codeFixed, absStatus, ActorStatus.toNat, Tree.Status.toNat]
 end XlateTie
+/-- round 4: chain 0 ← 1 ← 2, orphan 3.  0 takes the kill signal and walks its worklist; 1, killed by it,
+runs its own `terminate` at the same time; 3 is linked under the grandchild 2 in the middle of all that
+(accepted); 2 and 3 take their kill signals; round-robin to the end: everything is Stopped and closed. -/
+example : let g := crun cinit ([.spawn, .spawn, .spawn, .spawn, .setStatus 0 .running, .setStatus 1 .running,
+      .setStatus 2 .running, .setStatus 3 .running, .link 1 0, .link 2 1,
+      .begin 0 true, .xstep 0, .xstep 0, .xstep 0, .begin 1 true, .link 3 2, .xstep 1, .xstep 0, .xstep 1,
+      .begin 2 true, .begin 3 true] ++
+      (List.replicate 14 [COp.xstep 0, .xstep 1, .xstep 2, .xstep 3]).flatten)
+    g.t.sup 3 = none ∧ g.t.killed 3 = true ∧
+      [0, 1, 2, 3].all (fun x => g.pc x == .done && g.t.status x == .stopped && g.t.kids x == none) = true := by
+  decide +kernel
+
+/-- round 4: the same exit, but an outside thread unlinks 1 from 0 before 0's worklist reaches it: 1 (and 2
+beneath it) escape — the `escRun` disjunct of `conc_exit_takes_subtree` is needed -/
+example : let g0 := crun cinit [.spawn, .spawn, .spawn, .setStatus 0 .running, .setStatus 1 .running,
+      .setStatus 2 .running, .link 1 0, .link 2 1, .begin 0 true]
+    let ops := [COp.xstep 0, .unlink 1 0] ++ (List.replicate 10 (COp.xstep 0))
+    let g := crun g0 ops
+    escRun g0 ops 1 = true ∧ g.pc 0 = .done ∧ g.t.status 0 = .stopped ∧ g.t.status 1 = .running ∧
+      g.t.sup 2 = some 1 ∧ g.t.killed 1 = false := by decide
+
+/-- round 4: a descendant parked in `post_stop` (Stopping) is detached, not killed -/
+example : let g := crun cinit ([.spawn, .spawn, .setStatus 0 .running, .setStatus 1 .running, .link 1 0,
+      .setStatus 1 .stopping, .begin 0 false] ++ List.replicate 9 (COp.xstep 0))
+    g.pc 0 = .done ∧ g.t.killed 1 = false ∧ g.t.sup 1 = none ∧ g.t.status 1 = .stopping := by decide
+
+/-- round 4 (F9): a child lifted to `Draining` while its `pre_start` runs is refused by the public `link` but
+linked by `start`; a `Stopping` one is refused by both; a draining SUPERVISOR is refused by both -/
+example : let s := steps true init [.spawn, .spawn, .setStatus 0 .running, .setStatus 1 .draining]
+    (link s 1 0).2 = false ∧ (linkStart s 1 0).2 = true ∧ (linkStart s 1 0).1.sup 1 = some 0 ∧
+      (linkStart (setStatus s 1 .stopping) 1 0).2 = false ∧ (linkStart s 0 1).2 = false := by decide
+
+/-- follow-up: a parent that links two children under itself in `pre_start` and then fails to start (the macro ops
+the E-LTS driver replays for `spawnpre 2 …`): all three are Stopped, nobody is told; and a stale unlink after a
+hand-over changes nothing, the child's failure is reported to the supervisor it has -/
+example : let m := mrun true {} [.spawn, .spawnl 0, .spawnl 0, .abort 0]
+    m.t.status 0 = .stopped ∧ m.t.status 1 = .stopped ∧ m.t.status 2 = .stopped ∧ m.t.kids 0 = none ∧ m.t.sup 1 = none ∧
+      m.evs = [] := by decide
+example : let m := mrun true {} [.spawn, .spawn, .spawnl 0, .link 2 1, .unlink 2 0, .fail 2]
+    m.t.sup 2 = none ∧ m.t.kids 1 = some [] ∧ m.t.status 2 = .stopped ∧ m.evs = [(2, 1, .failed)] := by decide
 
 end C05
 
@@ -392,3 +697,27 @@ end C05
 #print axioms C05.generated_status_discriminants_eq_model
 #print axioms C05.generated_status_abs_surjective
 #print axioms C05.generated_terminate_kill_condition_eq_model
+#print axioms C05.conc_invariant
+#print axioms C05.conc_links_consistent
+#print axioms C05.conc_stopped_closed
+#print axioms C05.conc_no_gain
+#print axioms C05.exiting_is_stable
+#print axioms C05.conc_exit_takes_subtree
+#print axioms C05.conc_exit_takes_whole_subtree
+#print axioms C05.conc_link_under_exiting
+#print axioms C05.stopping_descendant_not_killed_but_exiting
+#print axioms C05.visit_is_kill_then_take
+#print axioms C05.handover_is_two_halves
+#print axioms C05.reader_sees_during_link
+#print axioms C05.reader_sees_during_take
+#print axioms C05.take_window_end
+#print axioms C05.start_link_gate
+#print axioms C05.start_link_no_gain
+#print axioms C05.terminate_loop_matches_source
+#print axioms C05.link_limits_match_source
+#print axioms C05.lock_regions_match_source
+#print axioms C05.cut_by_take_is_exiting
+#print axioms C05.quiescent_failed_start_takes_subtree
+#print axioms C05.failed_start_takes_built_subtree
+#print axioms C05.stale_unlink_is_noop
+#print axioms C05.unlink_and_cleanup_guards_match_source
